@@ -372,8 +372,10 @@ def values(spec, depth=2):
         abs_names = st.sampled_from(FS_NAMES).map(lambda n: "$ROOT/fs/" + n)
         good = st.one_of(st.sampled_from(FS_NAMES), st.sampled_from(FS_NAMES), abs_names, st.sampled_from(["", "~", "~/x", ".", "..", "a.txt ", "A.TXT", "a.txt\x00"]))
     elif kind == "bytes":
+        # (sizes around 57 / 76 bytes: where MIME-style base64 starts to wrap lines; a few hundred bytes for good measure)
         good = st.one_of(st.binary(max_size=8), st.text(max_size=6), st.sampled_from([b"", "", "é", b"\x00\xff", "aGVsbG8=", "deadbeef", b"deadbeefdeadbeef"]),
-                         st.sampled_from([5, [b"a"], None, True, 1.5]))
+                         st.sampled_from([5, [b"a"], None, True, 1.5]),
+                         st.sampled_from([56, 57, 58, 76, 77, 114, 115, 300]).flatmap(lambda n: st.binary(min_size=n, max_size=n)))
     elif kind == "loglevel":
         lv = opts.get("levels") or DEFAULT_LEVELS
         good = st.one_of(st.sampled_from(lv), st.sampled_from(lv).map(str.upper), st.sampled_from(lv).map(lambda s: "  %s\n" % s.title()),
